@@ -20,7 +20,7 @@ EXPLANATION = (
     "session on both, and answers an unknown or finished stream with an error. (last-flag-table) the writer stores [last as u8] "
     "as the response query and both readers test query.first() == Some(1). (eof-only-after-last) ChunkReader::read returns "
     "Ok(0) only under `finished`, which (with last_seen) is stored only on the last edge; pull_loop_async returns Ok only on "
-    "the last edge or when the consumer dropped its receiver. (no-byte-discard) the only statement that takes bytes out of "
+    "the last edge or when the consumer dropped its receiver. (one-next-per-chunk) the non-idempotent `next` request is sent once per chunk: from the failure edge of a `next` no further `next` is reachable (no retry), a single fetch sends at most one, and the async loop forwards each non-empty chunk before asking again. (no-byte-discard) the only statement that takes bytes out of "
     "ChunkSink.buf is the mem::replace whose result is sent as Msg::Chunk; write appends data[..take] and advances by the same "
     "take; readers advance by the number of bytes they copied. Not decided: chunk-size arithmetic at every boundary residue, "
     "compression round trip (zstd), relative producer/consumer speed."
@@ -194,6 +194,48 @@ def run(facts, R):
             if "first(" in a0 and ".query" in a0 and a1 == "Option::Some{0: 1}":
                 ok = True
         R.check(ok, "last-flag-table", path, "reader tests query.first() == Some(1)", "no `query.first().copied() == Some(1)` test found", b.span)
+
+    # ---------------- one-next-per-chunk: `next` is not idempotent (the server advances by one chunk per request it
+    # handles), so a puller sends it exactly once per chunk: never re-sent after an error or timeout, and the chunk of
+    # each answered request is consumed before the next request goes out
+    n_next = 0
+    for b in facts.bodies.values():
+        if not b.path.startswith("value_stream::") or "register_svs" in b.path:
+            continue
+        bs = Sym(b)
+        nx = [(i, t) for i, t in b.calls() if len(t["args"]) > 1 and render(bs.op(t["args"][1])) == "ROUTE_NEXT"]
+        if not nx:
+            continue
+        n_next += len(nx)
+        pts = [term_pt(b, i) for i, _ in nx]
+        from analysis.flow import in_cycle
+        for i, t in nx:
+            # (a) failure of the request is final: from its Err edge no further `next` is sent
+            bad = []
+            for x in sorted(b.live_blocks()):
+                for f in facts_at(b, bs, facts, x):
+                    if str(f["val"]) in ("Err", "Break") and any(y[0] == "call" and len(y) > 3 and y[3] == i for y in walk(f["expr"])):
+                        bad.append((x, 0))
+            w = must_cross(b, bad, pts, [], after_start=False) if bad else None
+            R.check(bool(bad) and w is None, "one-next-per-chunk", b.path, "a failed `next` is never re-sent",
+                    "after a failed or timed-out `next` request another one is sent (blocks %s): the server answers both, the reply to the abandoned one is dropped and a chunk is "
+                    "silently lost" % w, t.get("span"), "Err edge leaves the puller", path=w)
+            # (b) in a loop, the answered chunk is handed on (stored / sent) before the request is repeated
+            if in_cycle(b, i):
+                consume = [term_pt(b, j) for j, u in b.calls() if u["callee"]["name"] == "send" and "Sender" in u["callee"]["path"]]
+                empties = []
+                for x in sorted(b.live_blocks()):
+                    for f in facts_at(b, bs, facts, x):
+                        if is_call(f["expr"], "is_empty") and f["val"] is True and any(y[0] == "call" and len(y) > 3 and y[3] == i for y in walk(f["expr"])):
+                            empties.append((x, 0))
+                w2 = must_cross(b, [term_pt(b, i)], pts, consume + empties)
+                R.check(bool(consume) and w2 is None, "one-next-per-chunk", b.path, "each answered chunk is forwarded before the next request",
+                        "the loop can issue another `next` without forwarding the (non-empty) chunk it just received", t.get("span"), "tx.send(chunk) or empty chunk", path=w2)
+        if not any(in_cycle(b, i) for i, _ in nx):
+            pc = path_counts(b, [i for i, _ in nx])
+            R.check(pc is not None and pc[1] <= 1, "one-next-per-chunk", b.path, "at most one `next` per fetch", "a single fetch can send %s `next` requests" % (pc,), b.span,
+                    "max 1 per invocation")
+    R.floor("one-next-per-chunk", n_next, 2, "`next` request sites (blocking fetch, async pull loop)")
 
     # ---------------- eof-only-after-last -----------------------------------------------------------------------------
     rd = facts.body("<value_stream::ChunkReader<'_> as std::io::Read>::read")
